@@ -55,7 +55,15 @@ def vary(old, rng):
     import copy
     if type(old) is dict:
         new = copy.deepcopy(old)
-        c = rng.randrange(5)
+        c = rng.randrange(7)
+        if c == 5 and len(new) >= 2:
+            ks = list(new)
+            return {k: new[k] for k in reversed(ks)}          # the same items inserted in another order: an equal dict
+        if c == 6 and len(new) >= 2:
+            ks = list(new)
+            vs = [new[k] for k in ks]
+            return dict(zip(ks, vs[1:] + vs[:1]))             # the same keys, the values moved to other keys
+        c = c % 5
         if c == 0 or not new:
             return new if new or rng.random() < 0.5 else {'a': None}
         k = rng.choice(list(new))
